@@ -29,3 +29,25 @@ Theorem C14_topk_exact : forall p s rq q o,
     ExactTopK skey cands (so_cut o) (firstn (so_cut o) (so_full o)).
 Proof. exact single_results_exact_topk. Qed.
 Print Assumptions C14_topk_exact.
+
+(** every stored code byte names, per subspace, the FIRST codeword at minimal squared distance from
+    the (residual) subvector — as a uint8, i.e. modulo 256 (all code sizes the property quantifies
+    over, nbits <= 8, keep the index itself) *)
+From Comet Require Import Proofs.NearestP.
+Theorem C14_code_is_first_nearest_codeword : forall p books v m book,
+  In (m, book) (combine (map Z.of_nat (seq 0 (length books))) books) ->
+  book <> [] ->
+  let sv := subvec v (m * p_dsub p) (p_dsub p) in
+  Forall nn (map (dist L2Sq sv) book) ->
+  In ((nearest L2Sq sv book) mod 256) (pq_encode p books v) /\
+  let ds := map (dist L2Sq sv) book in
+  let r := Z.to_nat (nearest L2Sq sv book) in
+  (r < length book)%nat /\
+  (forall j, (j < length book)%nat -> F32.ltb (nth j ds 0) (nth r ds 0) = false) /\
+  (forall j, (j < r)%nat -> F32.ltb (nth r ds 0) (nth j ds 0) = true).
+Proof.
+  intros p books v m book Hin Hne sv Hnn. split.
+  - unfold pq_encode. apply in_map_iff. exists (m, book). split; [reflexivity|exact Hin].
+  - apply nearest_first_argmin; assumption.
+Qed.
+Print Assumptions C14_code_is_first_nearest_codeword.
